@@ -4,7 +4,9 @@
 (* The recording is what the scripted peers did and saw, in the order the  *)
 (* harness observed it:                                                    *)
 (*   line 1  {"me","peers":[..],"foreign":[..],"quorum":q|-1,"prio":p,     *)
-(*            "suicide":bool}            the node's configuration          *)
+(*            "suicide":bool,"later":[..]} the node's configuration        *)
+(*   {"e":"rewrite","peers":[..]}        the config file is about to be    *)
+(*                                       replaced by one naming these peers*)
 (*   {"e":"reset"}                       a fresh orchestrator process      *)
 (*   {"e":"send","m":{..}}               a datagram sent to the node       *)
 (*   {"e":"net","to":p,"m":{..}}         a datagram of the node arrived at *)
@@ -27,10 +29,11 @@ Hdr == Rec[1]
 TraceMe == Hdr.me
 TracePeers == ToSet(Hdr.peers)
 TraceForeign == ToSet(Hdr.foreign)
+TraceLater == IF "later" \in DOMAIN Hdr THEN ToSet(Hdr.later) ELSE {}
 Majority == (Cardinality(TracePeers) + 1) \div 2 + 1
-TraceQuorum == IF Hdr.quorum = -1 THEN Majority ELSE Hdr.quorum
+TraceQuorum == IF Hdr.quorum = -1 THEN 0 ELSE Hdr.quorum      \* 0: none configured
 TracePrio == Hdr.prio
-TraceTooLow == TraceQuorum < Majority /\ Hdr.suicide
+TraceTooLow == Hdr.quorum # -1 /\ Hdr.quorum < Majority /\ Hdr.suicide
 
 TInit == EInit /\ l = 2 /\ terming = "no"
 Ev == Rec[l]
@@ -40,14 +43,16 @@ CONSTANT MaxAhead      \* how far the explanation may run ahead of the log (per 
 TReset ==
   /\ Consume /\ Ev.e = "reset"
   /\ phase' = "wait" /\ inbox' = <<>> /\ votes' = 0 /\ mayVote' = {} /\ hbFrom' = "wait" /\ leader' = Me
-  /\ net' = [p \in Peers_ |-> <<>>] /\ proc' = <<>>
+  /\ net' = [p \in AllPeers |-> <<>>] /\ proc' = <<>>
+  /\ cpeers' = Peers_ /\ file' = Peers_ /\ seen' = Peers_ /\ pend' = <<>>
   /\ roundVoters' = {} /\ announced' = {} /\ UNCHANGED eused
   /\ terming' = "no"
 
 MsgOf(j) == IF j.t = "voteReq" THEN VoteReq(j.id, j.prio) ELSE [t |-> j.t, id |-> j.id, prio |-> 0]
 
 TSend == Consume /\ Ev.e = "send" /\ EnvSend(MsgOf(Ev.m)) /\ UNCHANGED terming
-TNet  == /\ Consume /\ Ev.e = "net" /\ Ev.to \in Peers_
+TRewrite == Consume /\ Ev.e = "rewrite" /\ EnvRewrite(ToSet(Ev.peers)) /\ UNCHANGED terming
+TNet  == /\ Consume /\ Ev.e = "net" /\ Ev.to \in AllPeers
          /\ net[Ev.to] # <<>> /\ Head(net[Ev.to]) = MsgOf(Ev.m) /\ TakeNet(Ev.to) /\ UNCHANGED terming
 ProcOf(j) == IF j.t = "stop" THEN PStop
              ELSE IF j.mode = "leader" THEN PStart("leader", "")
@@ -57,26 +62,26 @@ TProc == /\ Consume /\ Ev.e = "proc"
 \* a server process that is stopped while it is still starting up leaves no trace
 TUnseen == /\ Len(proc) >= 2 /\ proc[1].t = "start" /\ proc[2].t = "stop"
            /\ proc' = Tail(Tail(proc)) /\ UNCHANGED <<l, terming>>
-           /\ UNCHANGED <<phase, inbox, votes, mayVote, hbFrom, leader, net, roundVoters, announced, eused>>
+           /\ UNCHANGED <<phase, inbox, votes, mayVote, hbFrom, leader, net, roundVoters, announced, eused>> /\ UNCHANGED cfgvars
 TTerm == Consume /\ Ev.e = "term" /\ terming' = "yes" /\ UNCHANGED evars
 \* graceful shutdown (tosub): the loops end, a running server is stopped
 Shutdown ==
   /\ terming = "yes" /\ terming' = "down" /\ UNCHANGED l
   /\ proc' = IF phase \in {"leader", "follower"} THEN Append(proc, PStop) ELSE proc
   /\ phase' = "down"
-  /\ UNCHANGED <<inbox, votes, mayVote, hbFrom, leader, net, roundVoters, announced, eused>>
+  /\ UNCHANGED <<inbox, votes, mayVote, hbFrom, leader, net, roundVoters, announced, eused>> /\ UNCHANGED cfgvars
 TEnd  == /\ Consume /\ Ev.e = "end"
          \* a process that was refused its configuration at start-up never did anything
          /\ terming = "down" \/ (Ev.rc # 0 /\ phase = "wait" /\ votes = 0)
-         /\ \A p \in Peers_ : net[p] = <<>>
+         /\ \A p \in AllPeers : net[p] = <<>>
          /\ proc = <<>>
          /\ UNCHANGED evars /\ UNCHANGED terming
 
-Ahead == /\ \A p \in Peers_ : Len(net[p]) < MaxAhead
+Ahead == /\ \A p \in AllPeers : Len(net[p]) < MaxAhead
          /\ Len(proc) < MaxAhead
-Silent == l <= Len(Rec) /\ Ahead /\ terming # "down" /\ (Recv \/ Timeout \/ LeaderBeat) /\ UNCHANGED <<l, terming>>
+Silent == l <= Len(Rec) /\ Ahead /\ terming # "down" /\ (Recv \/ Timeout \/ LeaderBeat \/ Scan \/ Reload) /\ UNCHANGED <<l, terming>>
 
-TNext == TReset \/ TSend \/ TNet \/ TProc \/ TUnseen \/ TTerm \/ Shutdown \/ TEnd \/ Silent
+TNext == TReset \/ TSend \/ TRewrite \/ TNet \/ TProc \/ TUnseen \/ TTerm \/ Shutdown \/ TEnd \/ Silent
 TSpec == TInit /\ [][TNext]_<<evars, l, terming>>
 
 TraceC19 == [][LeaderStep /\ FollowerStep]_<<evars, l, terming>>
